@@ -7,6 +7,8 @@ ENGINES = [
      'kind_free_text': 'integers as vectors of bits, each bit a truth table over <= 8 named input bits; byte arrays at constant offsets; loop-free code only'},
     {'name': 'E4 relational abstract interpreter', 'path': 'analysis/interp.py analysis/lin.py analysis/e4.py', 'serves_properties': ['C01', 'C18'],
      'kind_free_text': 'abstract interpretation of MIR over linear constraints between immutable symbols; entailment by Fourier-Motzkin with gcd tightening; summaries with bad-region lifting; weak join, widening with thresholds, progress-ratio candidates; post-fixpoint ranking search'},
+    {'name': 'E5 tables (clang AST vs MIR)', 'path': 'rules/C15.py tables/', 'serves_properties': ['C15'],
+     'kind_free_text': 'clang -Xclang -ast-dump=json of src/bin/c_hook/c_hook.h compared with the ADT/fn-pointer types of the type-checked Rust crate'},
     {'name': 'E2 event automata', 'path': 'analysis/cfg.py analysis/pkt.py', 'serves_properties': ['C03', 'C08', 'C09', 'C10', 'C11'],
      'kind_free_text': 'forward data-flow of (automaton state, known enum variants) over the MIR CFG with per-callee summaries; keeps Ok/Err outcomes apart until the ? has branched'},
 ]
@@ -129,5 +131,16 @@ CHECKS['C18'] = {
              'the three section loops advance `offset` (<= len) by >= 11 bytes per iteration and the option loop is bounded; parse_rr / parse_question / skip_name are loop-free with a constant number of walk call sites. '
              'Hence steps <= a*len + b (the derived formula is printed in the evidence). A per-name loop whose best measure is only bounded by the buffer length is reported as quadratic.'),
     'note': 'Trusted: analysis/interp.py, analysis/lin.py, rustc MIR. The cost model counts loop iterations and label bytes, as the property does; no step-counter hook is needed.',
+}
+CHECKS['C15'] = {
+    'engine': 'E5 tables (clang AST vs MIR) + E2', 'level': 'other',
+    'technique': 'cross-check of the clang JSON AST of c_hook.h against the type-checked Rust FnTable (order, arity, ABI classes), call-graph dispatch table, dominance checks for caller buffers, path automaton for the error protocol',
+    'design_ref': 'DESIGN.md section 4, C15',
+    'text': ('Decides: (a) the Rust #[repr(C)] table and the header struct agree entry by entry in order, arity and ABI class of every parameter/result (callbacks included), abi_version last and equal, buffer sizes 256/8192; '
+             '(b) fn_table() fills each slot with the function of the same name, which reaches the native operation of tables/fn_table_map.json (and not its sibling\'s), on the right Section, value getters returning the native value unchanged; '
+             '(c) from_raw_parts_mut on caller pointers is dominated by a capacity test, name copy-outs are length-tested against 255 and NUL-terminated at index == length, raw_packet tests the capacity before copying, optional (ptr,len) pairs become Some only when non-null and non-empty; '
+             '(d) every int-returning entry returns 0 on the native Ok path and throw_err(..) (= -1, out-pointer stored only if non-null) on the Err path. '
+             'Equality of results with the native API over whole hook scripts is NOT decided (it follows from thinness only informally).'),
+    'note': 'Trusted: clang 14 AST, tables/fn_table_map.json, rustc MIR. Fixed-size array parameters are bounds-checked by Rust itself once their sizes match the header (checked).',
 }
 NOT_APPLICABLE = {('C%02d' % i): PENDING for i in range(1, 19) if ('C%02d' % i) not in CHECKS}
